@@ -40,7 +40,7 @@ func init() {
 	reg(&Property{
 		ID:          "C01",
 		Explanation: "Decides on every path of the memory driver: S1 the seven indexes are written, deleted and read under the same keys (bucket key signature and element key = full triple UUID agree between AddTriples, RemoveTriples and each of the twelve readers; each index is freshly allocated per graph and no package-level map exists); S2 create/get/drop of a graph name test presence first and fail without effect otherwise; S3 every access to the namespace map and the indexes holds the owner's lock in the required mode. The identity clause is C06's rule H2. Also (DESIGN §0.1): S1x bucket drops guarded by that bucket's emptiness and NewGraph registering a value allocated in the call; S2y presence test and map update inside one write-locked section; H1x/H3x the identity hashes read whole varints from buffers still owned; M4/M5 the memoizing wrapper's keys use full UUIDs. Not decided: set semantics over histories as such. Round 3: S7b no return inside the batch loop; S3d guarded fields only touched by their owner; M3b.",
-		Rules:       []func(*Ctx){ruleS7c, ruleS3d, ruleS7b, ruleM3b, ruleH1x, ruleH3x, ruleM4M5, ruleS1, ruleS1x, ruleS2, ruleS2y, ruleS3, ruleS7},
+		Rules:       []func(*Ctx){ruleM4b, ruleS7c, ruleS3d, ruleS7b, ruleM3b, ruleH1x, ruleH3x, ruleM4M5, ruleS1, ruleS1x, ruleS2, ruleS2y, ruleS3, ruleS7},
 		Level:       "index key agreement between writer, deleter and readers (S1), guarded namespace operations (S2), lockset (S3), batch atomicity (S7)",
 		Trusted:     []string{"Go map semantics", "guard table of S3", trustedCore},
 		NotDecided:  []string{"set semantics over arbitrary histories as such (follows from map semantics once S1 holds, but no rule states it)", "idempotence of re-add / absent-remove", "independence of graphs beyond per-graph allocation of every index", "injectivity of the identity hashes (H2 only refutes)"},
@@ -48,7 +48,7 @@ func init() {
 	reg(&Property{
 		ID:          "C02",
 		Explanation: "Decides: S1 each lookup reads the one index whose bucket key is built from exactly its fixed components with the writer's UUID/PartialUUID choice, and deleters cover every bucket; S8 every channel lookup runs bounds -> filter -> sort -> page with a checker built from its own predicate; S9 the bucket post-filter (abstractly interpreted over query/stored kind) admits a stored predicate only if it has the query's kind and, for temporal ones, after the instants were compared; S10 the window comparisons are mirror images. Also: S9z newChecker takes the anchor of every temporal lookup predicate; S8x global-bounds/latest/paging details; S1x; H1x/H3x; M4/M5 wrapper keys. Not decided: equality with a scan for all histories. Round 3: PT1 a predicate is immutable exactly when it has no anchor; M3b.",
-		Rules:       []func(*Ctx){rulePT1, ruleM3b, ruleH1x, ruleH3x, ruleM4M5, ruleS9z, ruleS1, ruleS1x, ruleS8, ruleS8x, ruleS9, func(c *Ctx) { ruleS10(c, 1, "storage/memory") }},
+		Rules:       []func(*Ctx){ruleM4b, rulePT1, ruleM3b, ruleH1x, ruleH3x, ruleM4M5, ruleS9z, ruleS1, ruleS1x, ruleS8, ruleS8x, ruleS9, func(c *Ctx) { ruleS10(c, 1, "storage/memory") }},
 		Level:       "reader/writer key agreement (S1), pipeline shape of all 11 lookups (S8), abstract interpretation of the kind/instant post-filter (S9), bound duality (S10)",
 		Trusted:     []string{"predicate.TimeAnchor fails exactly for immutable predicates; newChecker records the anchor of a temporal query predicate (checked structurally)", trustedCore},
 		NotDecided:  []string{"result equals a scan of the stored set for every history and argument (value-level)", "hash collisions between different identifiers sharing a bucket"},
@@ -65,7 +65,7 @@ func init() {
 	reg(&Property{
 		ID:          "C04",
 		Explanation: "Decides: P9 which driver mutations each statement kind can reach (lexical closures per Execute), the construct flag selecting AddTriples vs RemoveTriples, the fan-out over every target graph with the whole batch, the target list being the one the grammar puts after INTO/FROM, and Reify using one fresh blank node for its three triples; P5 the query (graph resolution) precedes the writer in CONSTRUCT/DECONSTRUCT; P8 no write error is dropped; L6 the bulk writer is joined and its channel closed on every path. Also: P9c every row of the binding table sends at least one triple; P9d the bulk writer keeps its first error; I1 Init returns each graph lookup error at once; P8b tested errors are propagated; PO1. Not decided: that the written set equals the stated set. Round 3: TB3 projections keep the rows (constant-only templates); HK2 the bindings checker validates before accepting; S7b.",
-		Rules:       []func(*Ctx){ruleIE1, ruleTB3, ruleHK2, ruleS7b, ruleP9d, ruleP9, ruleP9c, rulePO1, ruleI1, ruleP5, func(c *Ctx) { ruleP8(c, "bql/planner") }, func(c *Ctx) { ruleP8b(c, "bql/planner") }, func(c *Ctx) { ruleL6(c, 12, "bql/planner") }},
+		Rules:       []func(*Ctx){ruleS13, ruleIE1, ruleTB3, ruleHK2, ruleS7b, ruleP9d, ruleP9, ruleP9c, rulePO1, ruleI1, ruleP5, func(c *Ctx) { ruleP8(c, "bql/planner") }, func(c *Ctx) { ruleP8b(c, "bql/planner") }, func(c *Ctx) { ruleL6(c, 12, "bql/planner") }},
 		Level:       "statement-kind -> effect table over the call graph with lexically bound closures (P9), dominance of stages (P5), error use (P8), join typestate (L6)",
 		Trusted:     []string{"the statement-kind -> mutation table stated by the property (frozen in rule P9)", trustedCore},
 		NotDecided:  []string{"the written set equals the stated set (template instantiation per row is value-level)", "untouched graphs beyond 'only the named lists are iterated'"},
@@ -97,7 +97,7 @@ func init() {
 	reg(&Property{
 		ID:          "C08",
 		Explanation: "Decides: X1/X1b every lexer loop and the state machine terminate; X2 exactly one terminal token then the channel is closed; X3 the cursor invariant; L7 evaluator recursion passes strictly shorter slices and the grammar consumes a token per recursion level; L1 every compiler-unproven index/slice on the statement path is discharged by a re-verified schema or reviewed entry; L2 no (nil, nil); L3 comma-ok values are not dereferenced when absent; L4 no process-killing call; P12 a negative LIMIT cannot reach make(); L6 every goroutine is joined or its producer drained; IO1 reader discipline. Also: X7 the scanner advances by the decoder's size; L2b, L3b, L6c, L6d (DESIGN §0.1). Not decided: absence of all panics, bounded running time. Round 3: D1 no defer in a loop.",
-		Rules: []func(*Ctx){func(c *Ctx) { ruleL3b(c, "bql/table") }, func(c *Ctx) { ruleD1(c, "triple/...", "io", "bql/...", "storage/...") }, ruleX7, ruleX1, ruleX1b, ruleX2, ruleX3,
+		Rules: []func(*Ctx){ruleS13, func(c *Ctx) { ruleH3w(c, "triple/...", "io", "storage/...", "bql/...") }, func(c *Ctx) { ruleL3b(c, "bql/table") }, func(c *Ctx) { ruleD1(c, "triple/...", "io", "bql/...", "storage/...") }, ruleX7, ruleX1, ruleX1b, ruleX2, ruleX3,
 			func(c *Ctx) { ruleL1(c, 80, "./triple/...", "./io/...", "./bql/...", "./storage/...") },
 			func(c *Ctx) { ruleL2(c, 100, "triple/...", "io", "bql/...", "storage/...") },
 			func(c *Ctx) { ruleL2b(c, 40, "triple/...", "io", "bql/...", "storage/...") },
@@ -121,7 +121,7 @@ func init() {
 	reg(&Property{
 		ID:          "C10",
 		Explanation: "Decides (P4): (a) processClause reports 'unresolvable' (which truncates the table) only on the non-optional edge; (b) the plain cross product is only taken for non-optional clauses and LeftOptionalJoin takes it only with a non-empty right table; (c) when an optional clause matches nothing for a row the row is re-added with NULL cells; (d) every skippableError return in tripleToRow is on the non-optional edge. Also: P4e only reviewed row-preserving operations where the clause may be optional; P5c stage guards; PO1; TB1. Not decided: multiplicities of matches. Round 3: S6b; D1; P4c the unmatched row is merged with empty cells.",
-		Rules:       []func(*Ctx){ruleP2, ruleS6b, func(c *Ctx) { ruleD1(c, "triple/...", "io", "bql/...", "storage/...") }, ruleP4, ruleP4e, ruleP5c, rulePO1, ruleTB1},
+		Rules:       []func(*Ctx){ruleP8c, ruleP2, ruleS6b, func(c *Ctx) { ruleD1(c, "triple/...", "io", "bql/...", "storage/...") }, ruleP4, ruleP4e, ruleP5c, rulePO1, ruleTB1},
 		Level:       "edge-fact dominance on the four places where an optional clause could drop rows (P4)",
 		Trusted:     []string{trustedCore},
 		NotDecided:  []string{"multiplicities of matches", "several optional clauses in sequence beyond each satisfying P4 individually", "joinWithRange's merge logic (value-level)"},
@@ -171,7 +171,7 @@ func init() {
 	reg(&Property{
 		ID:          "C16",
 		Explanation: "Decides: X1 every unbounded lexer loop consumes a rune per cycle and has no feasible cycle at end of input; X1b every state-graph cycle passes through lexToken, which hands over without consuming only under a rune-class fact, after which at least one rune is consumed; X2 exactly one terminal token, nothing after it, channel closed once by run; X3 cursor writers and backup-after-next typestate, hence token texts are ordered disjoint substrings and emit cannot panic; X4 keywords and literal type names are matched case-insensitively; X5 TokenType.String, grammar tokens and literal type names agree. Also: X6 no blind skip; X7 position moves by the decoder's size only; X8 the predicate/literal dispatch cannot take the opening quote for a closing one. Not decided: whitespace invariance, printed form is one token. Round 3: X9 only lexToken consults the previous token.",
-		Rules:       []func(*Ctx){ruleX9, ruleX7, ruleX8, ruleX1, ruleX1b, ruleX2, ruleX3, ruleX4, ruleX5, ruleX6},
+		Rules:       []func(*Ctx){func(c *Ctx) { ruleH3w(c, "triple/...", "io", "storage/...", "bql/...") }, ruleX9, ruleX7, ruleX8, ruleX1, ruleX1b, ruleX2, ruleX3, ruleX4, ruleX5, ruleX6},
 		Level:       "progress/ranking argument per loop and for the state machine by abstract interpretation over rune classes (X1, X1b), typestate (X2, X3), table agreement (X4, X5)",
 		Trusted:     []string{"utf8.DecodeRuneInString returns width >= 1 on non-empty input", trustedCore},
 		NotDecided:  []string{"whitespace invariance of token kinds and texts", "the printed form of a value is emitted as exactly one token (value-level)"},
@@ -206,7 +206,7 @@ func init() {
 	reg(&Property{
 		ID:          "C20",
 		Explanation: "Decides: P8 no error of a driver call or module function is dropped on an Execute path, in the memoizer or the io package; L2 no success return that discards a received error (nil table with nil error); L6 failures neither leak goroutines nor leave a ranged-over channel open; M4 partial reads are not cached; IO1 reader errors. Also: P9d first write error kept; I1; P8b; L6c consumers drain; L6d addTriples drains on every exit. Not decided: bounded time under arbitrary fault sequences; what a driver may do after returning an error. Round 3: S13.",
-		Rules: []func(*Ctx){ruleS13, ruleP9d, ruleI1, func(c *Ctx) { ruleP8(c, "bql/planner", "storage/memoization", "io") }, func(c *Ctx) { ruleP8b(c, "bql/planner", "storage/memoization", "io") }, func(c *Ctx) { ruleL6c(c, "bql/planner", "io", "storage/...") }, ruleL6d,
+		Rules: []func(*Ctx){ruleP8c, ruleP8d, ruleS13, ruleP9d, ruleI1, func(c *Ctx) { ruleP8(c, "bql/planner", "storage/memoization", "io") }, func(c *Ctx) { ruleP8b(c, "bql/planner", "storage/memoization", "io") }, func(c *Ctx) { ruleL6c(c, "bql/planner", "io", "storage/...") }, ruleL6d,
 			func(c *Ctx) { ruleL2(c, 18, "bql/planner", "io") },
 			func(c *Ctx) { ruleL6(c, 25, "io", "bql/...", "storage/...") }, ruleM4M5, ruleIO1},
 		Level:      "error def-use (P8), (nil,nil) rule (L2), join typestate on error paths (L6), success-only caching (M4)",
